@@ -7,7 +7,7 @@ from pv.entail import canon, entails
 from pv.expr import Ctx, guard_facts, key_contains
 from pv.facts import AnalysisBroken, strip_targs
 from pv.formula import Formula
-from pv.loops import loop_shape
+from pv.loops import loop_shape, no_early_exit
 from checks import lehmann as lh
 from checks.lehmann import fld, THIS
 
@@ -143,7 +143,7 @@ def body(chk, db, cfgname):
         for j, n in fn_.walk(fn_.body):
             if n["k"] == "for":
                 shp = loop_shape(fn_, fctx, j)
-                if shp["kind"] == "iter" and shp["bound"] == fld("Pomerol::IndexContainer2::ElementsMap") and not shp["exits"]:
+                if shp["kind"] == "iter" and shp["bound"] == fld("Pomerol::IndexContainer2::ElementsMap") and no_early_exit(shp):
                     good = True
         if good:
             r6.ok(site, fn_.loc(), "visits every element of ElementsMap", cfgname)
